@@ -56,6 +56,7 @@ CANARIES = {
         ("embedded-option-from-content", "stix2/properties.py", "text", ["value = self.type(allow_custom=allow_custom, interoperability=interoperability, **value)", "value = self.type(allow_custom=allow_custom, **value)"], "C04.privileged-keys"),
         ("relaxed-reference-not-custom", "stix2/properties.py", "text", ["            has_custom = has_custom or not (\n                is_stix_type(obj_type, self.spec_version, *self.generics)\n                or obj_type in self.specifics\n            )\n", "            pass\n"], "C04.flag-back"),
         ("extension-property-custom-via-custom-properties", "stix2/base.py", "text", ["            self._properties.keys() - registered_toplevel_extension_props.keys()\n        if all_custom_prop_names:", "            self._properties.keys()\n        if all_custom_prop_names:"], "C04.flag-back"),
+        ("escape-on-types-without-extension-point", "stix2/base.py", "text", ["        if has_unregistered_toplevel_extension and \\\n                \"extensions\" not in self._properties and \\\n", "        if False and \\\n                \"x\" not in self.__dict__ and \\\n"], "C04.extra-props"),
     ],
     "C05": [
         ("fudge-not-strict", "stix2/versioning.py", "flip-compare", ["_fudge_modified", "LtE -> Lt"], "C05.granularity"),
